@@ -15,6 +15,14 @@ CHECKS = {
         'construction histories, options); an oracle evaluates the round-trip laws directly on the implementation.',
    note=TB + 'Modelled, not verified: C++ reference counting, struct-sequence unnamed fields, keys outside the key universe (NaN, hash-equal cross-type keys).',
    design='§7 C01'),
+ 'C08': dict(
+   technique='Coq proof (decode/encode of the post-order array, structural induction on treespecs) + extracted-model correspondence',
+   text='Theorems: flatten always yields the encoding of a well-formed structured treespec (decode . encode = id); children counts sum to the parent; '
+        'child/entry follow Python index semantics with IndexError outside [-n, n); the root is rebuilt from one_level + children; compose multiplies leaves and preserves '
+        'well-formedness; transform(identity) is the identity and leaf replacement equals compose. The correspondence run compares every inspection method (counts, kind, type, '
+        'paths, accessors, children, child(i) and entry(i) for all i in [-n-1, n], entries, one_level) and compose/transform/broadcast results (full node arrays) with the implementation.',
+   note=TB + 'The treespec algorithms are modelled at tree level (stree); the array layer is tied in by decode/encode theorems and by comparing full __getstate__ arrays, not by a refinement proof of each C++ index walk. treespec_* constructors and repr text are compared only through the harness.',
+   design='§7 C08'),
 }
 PLANNED = {}
 def main():
